@@ -4,7 +4,12 @@ from .gbase import GProp, pfields, mk_case, run_result
 from . import C07 as c07mod
 
 def gen_wrapped(r):
-    k = r.below(19)
+    k = r.below(21)
+    if k >= 19:
+        # wrapped parsers that end by looking for the end of the text or by running out of text (seq_count, end_of_text), with
+        # only filtered tokens left: they succeed without consuming those tokens
+        return r.choice([['left', parsegen.gen_item(r, 2), 'eot'], ['both', ['one', 'A'], 'eot'], 'eot', ['seqcount', 'A', 'B'], ['seqcount', 'B'],
+                         ['both', ['one', r.choice(['A', 'B'])], ['seqcount', 'A', 'B', 'A']], ['right', ['maybe', ['one', 'A']], ['seqcount', 'B', 'B']]])
     if k >= 17:
         # a capture nested in the wrapped parser whose own parser consumes nothing (it only looks ahead): the outer capture ends
         # with the last token consumed, whatever follows the filtered tokens behind it (a token, unrecognised text, the end)
@@ -125,6 +130,16 @@ class C14(GProp):
             elif k == 4: g = ['both', ['one', 'A'], ['sub', cap]]
             else: g = ['repeat', 0, 3, ['both', ['one', 'Comma'], cap]]
             t = spangen.random_text(r, alpha, 12 if tier == 'quick' else 24)
+            if i % 4 == 1:
+                # short texts that end in filtered tokens (nothing but blanks / a line break behind the last token)
+                t = spangen.random_text(r, ['a', 'a', 'b', 'sp', 'comma'], 1 + r.below(4)) + r.choice([['sp'], ['sp', 'sp'], ['sp', 'LF'], ['TAB']])
+            inner_s = sexp.dump(cap[1])
+            if ('(text' in inner_s or '(spanned' in inner_s or '(upto' in inner_s) and r.chance(2, 3):
+                # a capture nested in the wrapped parser: filtered tokens behind the consumed ones, then a token / rejected text / the end
+                t = r.choice([['a'], ['a', 'b'], ['b', 'a'], ['a', 'a']]) + r.choice([['sp'], ['sp', 'sp'], ['LF', 'sp']]) + r.choice([['bang'], ['bang', 'b'], ['c'], [], ['comma', 'a']])
+            elif i % 4 == 3:
+                # filtered tokens directly in front of text the scanner rejects
+                t = spangen.random_text(r, ['a', 'a', 'b', 'sp', 'comma'], 1 + r.below(4)) + r.choice([['sp', 'bang'], ['sp', 'sp', 'bang', 'b'], ['LF', 'sp', 'bang'], ['sp', 'bang', 'sp', 'a']])
             if i % 5 == 4:
                 # the capture starts at a token made of zero-display-width characters (several bytes, no column), after consumed
                 # tokens and filtered tokens
